@@ -307,7 +307,7 @@ pub fn run(run: &mut Run) -> Finish {
             let mut v = vec![];
             let class = check_bytes(bytes, &mut v);
             for x in v {
-                l.violation((idx << 12) + sub, x);
+                l.violation_sub(idx, sub, x);
             }
             sub += 1;
             n += 1;
